@@ -17,6 +17,26 @@ GLOBAL = optree.registry.__dict__['__GLOBAL_NAMESPACE']
 
 
 # ------------------------------------------------------------------ Python-level structure helpers
+def ditems(x):
+    """(key, value) pairs of a dict-like in ITS OWN order -- for an OrderedDict the order of its linked list (which
+    move_to_end changes while the underlying dict stays put) -- without firing an instrumented key dunder into a hook."""
+    if isinstance(x, OrderedDict):
+        hook, U.HOOK = U.HOOK, None
+        try:
+            return list(OrderedDict.items(x))
+        finally:
+            U.HOOK = hook
+    return list(dict.items(x))
+
+
+def dkeys(x):
+    return [k for k, _ in ditems(x)]
+
+
+def dvalues(x):
+    return [v for _, v in ditems(x)]
+
+
 def py_children(x):
     """Children by Python structure (independent of optree) or None for non-containers."""
     if isinstance(x, U.Node):
@@ -24,7 +44,7 @@ def py_children(x):
     if hasattr(type(x), '__optree_dataclass_fields__'):
         return [getattr(x, n, None) for n in type(x).__optree_dataclass_fields__[0]]
     if isinstance(x, dict):
-        return list(dict.values(x))
+        return dvalues(x)
     if isinstance(x, (tuple, list, deque)):
         return list(x)
     return None
@@ -42,6 +62,14 @@ def walk(x, out=None):
     return out
 
 
+def _od_from(items):
+    hook, U.HOOK = U.HOOK, None
+    try:
+        return OrderedDict(items)
+    finally:
+        U.HOOK = hook
+
+
 def clone(x):
     """Structural copy sharing leaves, keys and aux (for before/after comparisons)."""
     if isinstance(x, U.Node):
@@ -54,11 +82,11 @@ def clone(x):
             object.__setattr__(new, f.name, clone(v) if f.name in type(x).__optree_dataclass_fields__[0] else v)
         return new
     if isinstance(x, defaultdict):
-        return defaultdict(x.default_factory, [(k, clone(v)) for k, v in dict.items(x)])
+        return defaultdict(x.default_factory, [(k, clone(v)) for k, v in ditems(x)])
     if isinstance(x, OrderedDict):
-        return OrderedDict([(k, clone(v)) for k, v in dict.items(x)])
+        return _od_from([(k, clone(v)) for k, v in ditems(x)])
     if isinstance(x, dict):
-        return {k: clone(v) for k, v in dict.items(x)}
+        return {k: clone(v) for k, v in ditems(x)}
     if isinstance(x, deque):
         return deque([clone(c) for c in x], maxlen=x.maxlen)
     if isinstance(x, list):
@@ -233,7 +261,7 @@ class Scn:
                     objs.append(x)
             for x in walk(root):
                 if isinstance(x, dict):
-                    for k in dict.keys(x):
+                    for k in dkeys(x):
                         if id(k) not in seen and isinstance(k, (U.Key, U.UKey)):
                             seen.add(id(k))
                             objs.append(k)
